@@ -477,6 +477,7 @@ func runRTMP(p *kernel.Plan, res *kernel.Result) {
 	} else if p.C("enum") != 0 {
 		faults = rtmpFaults(p, b)
 	}
+	faults = capPositions(faults, p.Seed)
 	body := p.BodyHash()
 	for _, f := range faults {
 		q := p.Clone()
@@ -497,6 +498,26 @@ func runRTMP(p *kernel.Plan, res *kernel.Result) {
 		}
 	}
 	res.Stat("workloads_rtmp", 1)
+}
+
+// capPositions keeps enumeration of one workload bounded: beyond maxPositions
+// the positions are thinned with a seed-dependent stride (the first and last
+// 200 are always kept). Workloads of the quick tier stay below the cap.
+const maxPositions = 12000
+
+func capPositions(f []kernel.Fault, seed uint64) []kernel.Fault {
+	if len(f) <= maxPositions {
+		return f
+	}
+	stride := (len(f) + maxPositions - 1) / maxPositions
+	off := int(seed % uint64(stride))
+	var out []kernel.Fault
+	for i, x := range f {
+		if i < 200 || i >= len(f)-200 || i%stride == off {
+			out = append(out, x)
+		}
+	}
+	return out
 }
 
 // ---------- FLV ----------
@@ -582,6 +603,7 @@ func runFLV(p *kernel.Plan, res *kernel.Result) {
 			}
 		}
 	}
+	faults = capPositions(faults, p.Seed)
 	body := p.BodyHash()
 	for _, f := range faults {
 		res.Evals++
